@@ -28,6 +28,7 @@ EXPLANATION = (
     " (R8) declared starts / ends and ignored elements reach every derived computation: every source-sink graph a class builds over its graph gets the additional starts / ends (or the class provably materialises them in the node expansion), NodeExpandedDiGraph gets try_filling_in_missing_flow_attr=True whenever starts / ends are passed, the greedy and flow-safe-paths shortcuts of kFlowDecomp are taken only when nothing is ignored and the flow is conserved, the flow-valued repetition cap of kFlowDecompCycles reads only non-ignored edges, and the internal ignore list only grows after its per-mode definition. "
     " (R8, extended) a class that takes length_attr passes it to the node expansion (node_length_attr), and percentile options are computed over non-ignored elements. "
     "NOT decided: that the optimum is taken over exactly the constrained solutions; 'and nothing else' for ignored elements."
+    ' (R8, hunt 4) the cap provider of the cyclic error models excludes ignored edges from the maxima and gives them a structural bound (C04.R5).'
 )
 DECIDED = ["constraint families present and complete", "ignoring is the only way an edge is skipped", "scale 0 implies ignored",
            "additional starts/ends wired to the synthetic source/sink by the documented rule", "greedy rejected on unmet constraints"]
